@@ -178,6 +178,10 @@ def run_case(ctx, desc):
             rets = [Annotated[np.ndarray, ",".join(f"{n}:{q}" for n, q in arg)] if arg else np.ndarray for arg in outs]
             ann["return"] = rets[0] if len(rets) == 1 else Tuple[tuple(rets)]
             f.__annotations__ = ann
+            if desc["dseed"] % 2:
+                # the same kernel has been made into a grid ufunc before, with other options (a library of kernels wrapped
+                # per use): what is bound when *this* ufunc is defined is what counts
+                as_grid_ufunc(boundary="extend" if defn.get("boundary") != "extend" else "fill", fill_value=11.0)(f)
             gu = as_grid_ufunc(boundary_width={d: tuple(w) for d, w in bw_def.items()}, **defn)(f)
         else:
             gu = as_grid_ufunc(signature=sig, boundary_width={d: tuple(w) for d, w in bw_def.items()}, **defn)(body)
